@@ -76,7 +76,13 @@ Msg(j) ==
       ns |-> [n \in 1..nns |-> Rec0(j, n + 2)],
       ar |-> [n \in 1..Len(shape) |-> IF shape[n] = 1 THEN OptRec(j) ELSE Rec0(j, n + 3)]]
 
-Index(i) == (Offset + i * Stride) % Size
+\* (Offset + i * Stride) mod Size without leaving TLC's 32-bit integers (Size < 2^27): the stride is close to
+\* Size / golden ratio and coprime with Size, so that even a handful of consecutive i spread over the whole
+\* product and every coordinate (the last ones included: data names, EDNS options) varies from the start
+RECURSIVE MulMod(_, _, _)
+MulMod(a, b, m) == IF b = 0 THEN 0
+                   ELSE LET h == MulMod(a, b \div 2, m)  d == (h + h) % m IN IF b % 2 = 1 THEN (d + a) % m ELSE d
+Index(i) == ((Offset % Size) + MulMod(Stride % Size, i, Size)) % Size
 Layout(j) == Pick(Layouts, Digit(j, 6))
 
 VARIABLES i, done
